@@ -169,3 +169,39 @@ oset("socket.histories.native-exploration", ["C01", "C02", "C07", "C15", "C16"],
              "and of lemmas/Fifo.lean / Conn.lean; proves nothing")(_history(500))
 oset("socket.histories.native-exploration.thorough", ["C01", "C02", "C07", "C15", "C16"], [], kind="library-validation", tier="thorough",
      bounded="20000 random fault scripts (5..40 steps each) on the real socket, virtual-time loop; proves nothing")(_history(20000))
+
+
+def _client_history(runs):
+    def script(h):
+        if not h.symbolic:
+            return
+        env = dict(os.environ, PYVC_REPO=os.environ.get("PYVC_REPO", "/repo"))
+        try:
+            p = subprocess.run([PY, os.path.join(VERIF, "replay", "client_fuzz.py"), "20260928", str(runs)], capture_output=True, text=True,
+                               timeout=120 if runs <= 1000 else 1500, cwd=VERIF, env=env)
+            lines = [l for l in p.stdout.strip().splitlines() if l.startswith("{")]
+            res = json.loads(lines[-1]) if p.returncode == 0 and lines else {}
+            tail = p.stdout[-300:] + p.stderr[-300:]
+        except subprocess.TimeoutExpired:
+            res, tail = {}, "the exploration did not finish within its wall-clock limit (the real code spins or blocks)"
+        h.oblige("the whole-client exploration ran to the end on the package's interpreter", bool(res), detail=tail)
+        if not res:
+            return
+        st = res.get("stats", {})
+        h.oblige("the scripts exercised what they are meant to (handshakes completed, shutdowns in the middle of a handshake, link losses, heartbeats)",
+                 st.get("inits_true", 0) > runs // 2 and st.get("mid_handshake_shutdowns", 0) > runs // 4 and st.get("link_losses", 0) > runs // 4
+                 and st.get("heartbeats", 0) > runs // 2, detail=json.dumps(st))
+        h.oblige("on every explored history of init / shutdown at arbitrary instants (also between two turns of the loop in the middle of the "
+                 "handshake), link losses, refusals, a silent console, user commands, slow subscribers and long idle periods: init returns within "
+                 "5 s with the right answer and the model the console described; after shutdown nothing is open, connected, initialised, scheduled "
+                 "or written, and a later init works; a heartbeat every 300 s and no reset on a healthy link; a refresh after every reconnection",
+                 res.get("n_violating_runs", 1) == 0, detail=json.dumps(res.get("violations", [])[:2])[:1500])
+        h.cover("client histories explored")
+    return script
+
+
+oset("client.histories.native-exploration", ["C15", "C09", "C08", "C14", "C07"], [], kind="library-validation",
+     bounded="300 random whole-client scripts (AirTouch4 / AirTouch5 object + heartbeat + socket against a simulated console built from the package's "
+             "own codecs, virtual time); end-to-end companion of the step contracts; proves nothing")(_client_history(300))
+oset("client.histories.native-exploration.thorough", ["C15", "C09", "C08", "C14", "C07"], [], kind="library-validation", tier="thorough",
+     bounded="20000 random whole-client scripts; proves nothing")(_client_history(20000))
